@@ -64,17 +64,6 @@ func staticChecks() []func() (StaticCase, ev.Verdict) {
 
 	for _, f := range files {
 		f := f
-		add("embedded-file-advertised", f, func() error {
-			base := strings.TrimSuffix(f, ".yaml")
-			for _, n := range names {
-				if n == base {
-					return nil
-				}
-			}
-
-			return fmt.Errorf("embedded definition %s is not in GetPlatformNames() %v", f, names)
-		})
-
 		def, _, lerr := loadFile(f)
 		if lerr != nil {
 			add("definition-parses", f, func() error { return lerr })
